@@ -3,6 +3,7 @@ package main
 import (
 	"fmt"
 	"os"
+	"os/exec"
 	"sort"
 	"strings"
 	"time"
@@ -14,7 +15,30 @@ import (
 	"symgo/interp"
 )
 
-const harnessDir = "/verif/harness"
+var harnessDir = "/verif/harness"
+
+// altRepo: SYMGO_REPO=<dir> runs the checks against another checkout of the repository
+// (used to try seeded changes in scratch worktrees without touching /repo): the harness
+// module is copied to a scratch directory with its replace directive pointing there.
+func altRepo() error {
+	repo := os.Getenv("SYMGO_REPO")
+	if repo == "" || repo == "/repo" {
+		return nil
+	}
+	dst := fmt.Sprintf("/var/tmp/hv-%d", os.Getpid())
+	if out, err := exec.Command("cp", "-r", "/verif/harness", dst).CombinedOutput(); err != nil {
+		return fmt.Errorf("copying harness: %v %s", err, out)
+	}
+	gm, err := os.ReadFile(dst + "/go.mod")
+	if err != nil {
+		return err
+	}
+	if err := os.WriteFile(dst+"/go.mod", []byte(strings.Replace(string(gm), "=> /repo", "=> "+repo, 1)), 0o644); err != nil {
+		return err
+	}
+	harnessDir = dst
+	return nil
+}
 
 // packages whose initialisers are executed on every path (order matters)
 var initPaths = []string{
